@@ -26,6 +26,21 @@ PROPS = {
         "trusted_base": [],
         "assumptions": ["premises are live when a justification is recorded and extra justifications go to present logical facts (the property's quantifier); other histories are compared model-vs-code only"],
     },
+    "C17": {
+        "num": 17,
+        "vo": ["Properties/C17.vo"],
+        "rule": "exhaustive: all sequences of insert_proof (premise subsets of size<=2 among never-invalidated handles, any insertion order) / "
+                "invalidate_handle up to depth 4 over 3 handles (quick; thorough adds depth 4 over 4 and depth 5 over 3), plus random sequences of "
+                "2..9 ops over 5 handles incl. self-premises, key aliasing and is_proven queries; non-trivial = at least one invalidation after two insertions",
+        "level_text": "Proved for every graph and propagation depth: re-proof makes a handle valid and proven; an invalidation only ever lowers validity and "
+                "shrinks justification lists; a directly invalidated handle is invalid. The full statement (valid exactly while a justification survives, as "
+                "the least fixpoint of loss of justifications, order-free) is the Coq-defined executable specification ProofGraph.ok, evaluated on every "
+                "observation of the real ProofGraph (validity + justification count of every handle and is_proven of every key after every op) and compared with the model.",
+        "level_note": "Trusted: Coq kernel; model of proof_graph.rs after fix ec1ef45 (HashSet iteration order modelled as insertion order; per-node dependents, stats, "
+                "bindings not modelled); harness; extraction. The equality 'recursive propagation = least fixpoint' is checked by the monitor on all generated histories, not yet a theorem. Axioms: none.",
+        "trusted_base": [],
+        "assumptions": ["a handle that has been invalidated (directly or by losing every justification) is not used as a premise of a later insertion (the property's quantifier); later ops of such histories are compared model-vs-code only"],
+    },
     "C13": {
         "num": 13,
         "vo": ["Properties/C13.vo"],
